@@ -50,8 +50,21 @@ def replay_case(case, tag, rng, tier):
 
     for num in ("int", "float", "frac"):
         mat = conv(m, num)
-        sol, exc = call(G.solve, copy.deepcopy(mat))
+        given = copy.deepcopy(mat)
+        # the same system presented differently: equal rows given as ONE row object, rows given as tuples, or the very matrix object
+        # that an earlier solve() has already seen (a system is a value: the answer may depend on none of this)
+        form = rng.choice(("fresh", "fresh", "shared_rows", "tuple_rows", "solved_before"))
+        if form == "shared_rows":
+            first = {}
+            given = [first.setdefault(tuple(r), r) for r in given]
+        elif form == "tuple_rows":
+            given = [tuple(r) for r in given]            # (the outer container must be a list: solve() reorders it in place)
+        elif form == "solved_before":
+            call(G.solve, given)
+            out["calls"] += 1
+        sol, exc = call(G.solve, given)
         out["calls"] += 1
+        num = num if form == "fresh" else num + "/" + form
         if exc is not None:
             bad("C16.solve_raises", "solve raised %s at %s: %s" % (exc["cls"], exc["site"], exc["msg"]), num)
             continue
@@ -67,7 +80,7 @@ def replay_case(case, tag, rng, tier):
             bad("C16.exact", "exact = %r with %d free parameters" % (sol.exact, free), num)
         for trial in range(2):
             params = [rng.choice(PARAMS) for _ in range(free)]
-            if num == "float":
+            if num.startswith("float"):
                 params = [float(p) for p in params]
             x, exc = call(sol, *params)
             out["calls"] += 1
@@ -79,8 +92,8 @@ def replay_case(case, tag, rng, tier):
                 break
             ok = True
             for row in m:
-                lhs = sum(Fr(row[j]) * (Fr(x[j]) if num != "float" else Fr(float(x[j]))) for j in range(len(x)))
-                if num == "frac":
+                lhs = sum(Fr(row[j]) * (Fr(x[j]) if not num.startswith("float") else Fr(float(x[j]))) for j in range(len(x)))
+                if num.startswith("frac"):
                     ok = ok and lhs == row[-1]
                 else:
                     ok = ok and abs(float(lhs) - row[-1]) <= 1e-9 * max(1.0, max(abs(float(v)) for v in x))
